@@ -70,6 +70,8 @@ func propC14(c *Ctx, r *Report) {
 	r.rule("C14/snapshot-rotation-always", 1, "every snapshot block rotates the snapshot tables")
 	rulePassThrough(c, r, "C14/snapshot-rotation-always", c.fn("node.Pegnetd.SnapshotPayouts"), "pegnet.Pegnet.SnapshotCurrent", "the snapshot tables are rotated at every snapshot height, whether or not anybody is paid", "the next snapshot would take its minimum against a snapshot two periods old and pay funds that arrived after the previous snapshot")
 	rulePayoutsPure(c, r, "C14/payouts-pure")
+	r.rule("C14/requests-unaltered", 1, "a stake is recorded with the amount it was valued at")
+	ruleRequestsUnaltered(c, r, "C14/requests-unaltered")
 	r.rule("C14/loopvar-alias", 1, "no address of a per-loop variable is retained across iterations in block processing")
 	ruleLoopVarAlias(c, r, "C14/loopvar-alias", c.RSync)
 	r.rule("C14/payout-loops-complete", 2, "every holder and every asset is visited")
@@ -471,6 +473,10 @@ func orderedElementLoop(c *Ctx, site ssa.CallInstruction) bool {
 			}
 		case *ssa.UnOp:
 			if ia, ok := x.X.(*ssa.IndexAddr); ok && rangeIndexOver(ia.Index, ia.X) {
+				ordered = true
+			}
+		case *ssa.Index:
+			if rangeIndexOver(x.Index, x.X) {
 				ordered = true
 			}
 		}
